@@ -518,8 +518,12 @@ enum Pat {
     TyInt,
     TyString,
     Any,
+    LitTrue,
+    LitFalse,
+    EqTrue,
+    TyBool,
 }
-const PATS: [Pat; 7] = [Pat::Lit1, Pat::LitA, Pat::Gt0, Pat::Le0, Pat::TyInt, Pat::TyString, Pat::Any];
+const PATS: [Pat; 11] = [Pat::Lit1, Pat::LitA, Pat::Gt0, Pat::Le0, Pat::TyInt, Pat::TyString, Pat::Any, Pat::LitTrue, Pat::LitFalse, Pat::EqTrue, Pat::TyBool];
 
 impl Pat {
     fn render(&self) -> &'static str {
@@ -531,15 +535,43 @@ impl Pat {
             Pat::TyInt => "int",
             Pat::TyString => "string",
             Pat::Any => "_",
+            Pat::LitTrue => "true",
+            Pat::LitFalse => "false",
+            Pat::EqTrue => "==true",
+            Pat::TyBool => "bool",
         }
     }
-    /// Some(true/false) = matches / does not; None = not fixed by the property
+    /// Some(true/false) = matches / does not; None = not fixed by the property.
+    /// A literal pattern is an equality test with that literal: where the reference model leaves the
+    /// equality of two types open (an int and a bool, say), the pattern has to agree with what the
+    /// implementation's own `==` gives for the same operands.
     fn matches(&self, s: &V) -> Option<bool> {
+        let by_model = self.matches_model(s);
+        if by_model.is_some() {
+            return by_model;
+        }
+        let lit = match self {
+            Pat::Lit1 => "1",
+            Pat::LitA => "'a'",
+            Pat::LitTrue | Pat::EqTrue => "true",
+            Pat::LitFalse => "false",
+            _ => return None,
+        };
+        match real::eval(&format!("s == {}", lit), &[("s", s.clone())]).value() {
+            Some(V::Bool(b)) => Some(b),
+            _ => None,
+        }
+    }
+    fn matches_model(&self, s: &V) -> Option<bool> {
         match self {
             Pat::Any => Some(true),
             Pat::TyInt => Some(matches!(s, V::Int(_))),
             Pat::TyString => Some(matches!(s, V::Str(_))),
             Pat::Lit1 => refmodel::eq(s, &V::Int(1)),
+            // a bool literal is compared like every other literal, not tested for truthiness
+            Pat::LitTrue | Pat::EqTrue => refmodel::eq(s, &V::Bool(true)),
+            Pat::LitFalse => refmodel::eq(s, &V::Bool(false)),
+            Pat::TyBool => Some(matches!(s, V::Bool(_))),
             Pat::LitA => refmodel::eq(s, &V::s("a")),
             Pat::Gt0 => match refmodel::cmp(s, &V::Int(0)) {
                 CmpRes::Ord(o) => Some(o == std::cmp::Ordering::Greater),
@@ -578,6 +610,9 @@ fn scrutinees() -> Vec<V> {
         V::Bool(true),
         V::Null,
         V::list(&[V::Int(1)]),
+        V::Bool(false),
+        V::Int(5),
+        V::s(""),
     ]
 }
 
@@ -860,6 +895,116 @@ impl Truth {
     }
 }
 
+// ---------------------------------------------------------------------------
+// every kind of failure behaves like every other in the logical operators
+
+/// expressions that fail when evaluated under `fk_bindings` (zz = 0, ss = 'a', ll = [1],
+/// mm = {'a': 1}, kk = 1, uu unbound), one per way an instruction, a call or a macro can fail
+const FAILURE_KINDS: [&str; 58] = [
+    "1 / zz", "1 % zz", "9223372036854775807 + kk", "-(-9223372036854775807 - kk)", "kk + ss", "ss * 2", "-ss", "kk < ss", "kk in kk",
+    "ll[5]", "ll[ss]", "ll[-2]", "mm['b']", "mm.b", "mm[kk]", "kk.a", "ss[0]",
+    "{kk: 2}", "{ss: 1, kk: 2}", "[1 / zz][0]", "{'a': 1 / zz}.a",
+    "size(kk)", "size(1 / zz)", "size(uu)", "(1 / zz).size()", "ss.contains(1 / zz)", "ss.contains(uu)", "ss.contains(kk)", "kk.contains(ss)", "ss.splitAt(9)",
+    "int(ss)", "int(1 / zz)", "uint(-kk)", "string(1 / zz)", "type(1 / zz)", "timestamp(ss)", "duration(ss)", "timestamp(1 / zz)", "double(ss)",
+    "abs()", "nosuch(kk)", "kk(1)", "ll.nosuch()", "v(1, 1 / zz)",
+    "f'{1 / zz}'", "f'a{kk}{1 / zz}b'", "f'{uu}'",
+    "ll.map(i, 1 / zz)", "ll.filter(i, 1 / zz)", "ll.all(i, 1 / zz > 0)", "ll.exists_one(i, i / zz > 0)", "ll.reduce(a, i, a / zz, 0)", "kk.map(i, i)", "(1 / zz).map(i, i)",
+    "has(1 / zz)", "coalesce(1 / zz, 1)", "size(ll, ll)", "uu",
+];
+
+/// logical contexts; `{F}` is the failing operand
+const FAILURE_CONTEXTS: [&str; 20] = [
+    "({F}) || true",
+    "true || ({F})",
+    "({F}) || false",
+    "false || ({F})",
+    "({F}) && true",
+    "true && ({F})",
+    "false && ({F})",
+    "({F}) && false",
+    "({F}) ? 1 : 2",
+    "true ? 1 : ({F})",
+    "false ? ({F}) : 2",
+    "true ? ({F}) : 2",
+    "!({F})",
+    "!!({F}) || true",
+    "match 1 { case int: 1, case string: ({F}) }",
+    "match 'x' { case int: 1, case string: ({F}) }",
+    "(({F}) || false) || true",
+    "[1].map(i, ({F}) || true)[0]",
+    "size([({F}) || true])",
+    "f'{({F}) || true}'",
+];
+
+fn fk_bindings<'a>() -> BindContext<'a> {
+    let mut b = BindContext::new();
+    b.bind_param("zz", CelValue::Int(0));
+    b.bind_param("ss", CelValue::String("a".to_string()));
+    b.bind_param("ll", CelValue::List(vec![CelValue::Int(1)]));
+    let mut h = std::collections::HashMap::new();
+    h.insert("a".to_string(), CelValue::Int(1));
+    b.bind_param("mm", CelValue::Map(h));
+    b.bind_param("kk", CelValue::Int(1));
+    b.bind_func("v", &v_impl);
+    b
+}
+
+/// the same expression with the variables written as literals (so the compiler may fold it)
+fn fk_literal(f: &str) -> String {
+    f.replace("zz", "0").replace("ss", "'a'").replace("ll", "[1]").replace("mm", "{'a': 1}").replace("kk", "1")
+}
+
+fn failure_kinds_size() -> u64 {
+    (FAILURE_KINDS.len() * 2) as u64
+}
+
+fn run_failure_kind(idx: u64, acc: &mut Acc) {
+    let kind = FAILURE_KINDS[(idx / 2) as usize];
+    let literal = idx % 2 == 1;
+    let f = if literal { fk_literal(kind) } else { kind.to_string() };
+    let b = fk_bindings();
+    let site = format!("failure-kind `{}`{}", kind, if literal { " (operands as literals)" } else { "" });
+    let alone = real::eval_with(&f, &b);
+    let _ = take_log();
+    acc.eval();
+    acc.class(&alone.class());
+    if alone.is_compile_fail() {
+        // the literal spelling is not an expression of the language (e.g. `1(1)` is, `0.a` is not)
+        acc.count("literal spellings rejected by the parser (skipped)", 1);
+        return;
+    }
+    if !alone.is_fail() {
+        acc.violation(&format!("{} does-not-fail-on-its-own", site), json!({"src": f}), "an error".into(), alone.show());
+        return;
+    }
+    acc.nontrivial(&idx);
+    for ctx in FAILURE_CONTEXTS {
+        let src = ctx.replace("{F}", &f);
+        // the canonical failure in the same context: its behaviour is fixed by the trees family
+        let canon = real::eval_with(&ctx.replace("{F}", "1 / zz"), &b);
+        let _ = take_log();
+        let got = real::eval_with(&src, &b);
+        let _ = take_log();
+        acc.evals(2);
+        acc.class(&got.class());
+        if got.is_panic() || got.is_compile_fail() {
+            acc.violation(&format!("{} panic-or-compile-error in `{}`", site, ctx), json!({"src": src}), canon.show(), got.show());
+            continue;
+        }
+        if !canon.agrees_class(&got) {
+            acc.violation(
+                &format!("{} is-not-treated-like-other-failures in `{}`", site, ctx),
+                json!({"src": src, "bindings": "zz = 0, ss = 'a', ll = [1], mm = {'a': 1}, kk = 1, uu unbound"}),
+                format!("as with 1 / zz in its place: {}", canon.show()),
+                got.show(),
+            );
+        }
+    }
+    if acc.wants_sample() {
+        acc.sample(json!({"failing_operand": f, "alone": alone.show(), "contexts": FAILURE_CONTEXTS.len()}));
+    }
+}
+
 pub fn replay_families(t: Tier) -> Vec<Family<'static>> {
     let tr: &'static Trees = Box::leak(Box::new(Trees::new(t)));
     let m: &'static Matches = Box::leak(Box::new(Matches::new(t)));
@@ -870,6 +1015,7 @@ pub fn replay_families(t: Tier) -> Vec<Family<'static>> {
         Family::new("trees", tr.size(), move |i, a| tr.run(i, a)),
         Family::new("match", m.size(), move |i, a| m.run(i, a)),
         Family::new("truthiness", th.size(), move |i, a| th.run(i, a)),
+        Family::new("failure-kinds", failure_kinds_size(), run_failure_kind),
     ]
 }
 
@@ -879,7 +1025,7 @@ pub fn run(t: Tier) -> i32 {
     let (mn, ml) = t.pick((3, 4), (4, 5));
     rep.rule = format!(
         "trees: every fully parenthesised tree over {{||, &&, ?:, !}} with <= {} internal nodes and <= {} leaves (thorough: 4-node trees up to 4 leaves; {} shapes; quick adds every shape with <= 3 nodes and exactly 5 leaves over 6 atoms),
- every leaf from {} atoms (literal and bound true/false, literal and bound truthy/falsy ints, a foldable failure 1/0, a run-time failure z/0, an unbound name, call-recording functions returning true/false/an error), executed through the public API; the outcome and the exact sequence of recorded calls must equal a reference lazy evaluator. match: every match with 0..{} cases over 7 patterns x 5 arms x 11 scrutinees, literal and bound; expected = arm of the first matching case, null if none; cases whose pattern comparison is not defined by the property are totality-only. truthiness: {} values of every type x {} contexts x literal/bound against one truthiness table. Non-trivial = the property fixes the outcome; distinct by index",
+ every leaf from {} atoms (literal and bound true/false, literal and bound truthy/falsy ints, a foldable failure 1/0, a run-time failure z/0, an unbound name, call-recording functions returning true/false/an error), executed through the public API; the outcome and the exact sequence of recorded calls must equal a reference lazy evaluator. match: every match with 0..{} cases over 11 patterns (incl. the bool literals, == true and the type bool) x 5 arms x 14 scrutinees, literal and bound; expected = arm of the first matching case, null if none; a literal pattern whose equality with the scrutinee the reference model leaves open (an int against a bool) has to agree with the implementation's own ==; other cases whose pattern comparison is not defined by the property are totality-only. failure-kinds: 58 expressions that fail, one per way an instruction, a call (failing argument, receiver, arity, unknown name), a conversion, an f-string hole, a map literal key, an index or a macro can fail, with variable and with literal operands, in 20 logical contexts (both sides of || and && against true and false, condition and both clauses of ?:, !, unselected match arms, nested in a macro body, a call argument and an f-string hole): the outcome must be the one the canonical failure 1/zz has in the same context (whose behaviour the trees family fixes), and each expression must fail on its own. truthiness: {} values of every type x {} contexts x literal/bound against one truthiness table. Non-trivial = the property fixes the outcome; distinct by index",
         mn,
         ml,
         tr.shapes.len(),
@@ -900,6 +1046,7 @@ pub fn run(t: Tier) -> i32 {
     rep.run_family(Family::new("match", m.size(), |i, a| m.run(i, a)));
     let th = Truth::new();
     rep.run_family(Family::new("truthiness", th.size(), |i, a| th.run(i, a)));
+    rep.run_family(Family::new("failure-kinds", failure_kinds_size(), run_failure_kind));
     rep.assumptions = vec![
         "the kind of a failure is not compared (the property says 'fails')".into(),
         "a match whose pattern comparison is between unrelated types (== or < not fixed by the property) is checked for totality only".into(),
